@@ -425,7 +425,13 @@ class TElement:
             if start_pos is None:
                 assert is_valid_inner_node
                 self.start_pos = self.value[0].start_pos
-                self.end_pos = self.value[-1].end_pos
+                # the element ends where its last not-empty child ends
+                # (empty child elements are located at the following token)
+                self.end_pos = self.start_pos
+                for child in reversed(self.value):
+                    if child.end_pos.coords != child.start_pos.coords:
+                        self.end_pos = child.end_pos
+                        break
             else:
                 self.start_pos = start_pos
                 self.end_pos = end_pos
